@@ -56,30 +56,40 @@ def gen(args):
     recs = []
     gpe = emd.sift.get_padded_extrema
     ie = emd.sift.interp_envelope
-    for sq in seqs:
+    # user-supplied np.pad options for the magnitudes: ONE long-lived dictionary per worker, handed to call after call
+    # (as a user's options object is) - the default ('edge') passes nothing
+    user_mag = {'mode': 'reflect'}
+    user_ext = {'mag_pad_opts': {'mode': 'reflect'}}
+    for si, sq in enumerate(seqs):
         x = np.array(sq, dtype=float)
         N = len(x)
         for pw in range(0, 6):
             for parab in (0, 1):
                 for mode in MODES:
-                    o = core.guarded(gpe, x, pad_width=pw, mode=mode, parabolic_extrema=bool(parab))
+                    mm = 'reflect' if (si + pw + parab) % 4 == 0 else 'edge'
+                    kw = {'mag_pad_opts': user_mag} if mm == 'reflect' else {}
+                    o = core.guarded(gpe, x, pad_width=pw, mode=mode, parabolic_extrema=bool(parab), **kw)
                     if isinstance(o, str):
                         r = {'none': -99, 'locs': [], 'mags': [], 'err': o}
                     elif o[0] is None:
                         r = {'none': 1, 'locs': [], 'mags': []}
                     else:
                         r = {'none': 0, 'locs': fx(o[0], LS), 'mags': fx(o[1], MS)}
-                    r.update(kind='pad', sig=list(sq), pw=pw, mode=mode, parab=parab)
+                    r.update(kind='pad', sig=list(sq), pw=pw, mode=mode, parab=parab, mm=mm)
                     recs.append(r)
                 if not do_env or pw == 0:
                     continue
                 for emode in EMODES:
                     for method in METHODS:
-                        r = {'kind': 'env', 'sig': list(sq), 'pw': pw, 'emode': emode, 'method': method, 'parab': parab,
+                        mm = 'reflect' if (si + pw) % 3 == 0 else 'edge'
+                        r = {'kind': 'env', 'sig': list(sq), 'pw': pw, 'emode': emode, 'method': method, 'parab': parab, 'mm': mm,
                              'none': 0, 'n_out': -1, 'locs': [], 'mags': [], 'grid': 'n/a', 'knots': []}
                         try:
-                            out = core.guarded(ie, x, mode=emode, interp_method=method,
-                                               extrema_opts={'pad_width': pw, 'parabolic_extrema': bool(parab)}, ret_extrema=True)
+                            xo = {'pad_width': pw, 'parabolic_extrema': bool(parab)}
+                            if mm == 'reflect':
+                                user_ext.update(xo)
+                                xo = user_ext
+                            out = core.guarded(ie, x, mode=emode, interp_method=method, extrema_opts=xo, ret_extrema=True)
                             if isinstance(out, str):
                                 r['none'] = -99; r['err'] = out
                             elif out is None:
@@ -214,8 +224,13 @@ def run():
             bad += core.validate_records(ctx, 'ExtremaRec', buf, name='ExtremaRec')
         xs = [q for q in seqs if len(q) <= ctx.pick(6, 8)]
         ex = [r for rs in pool.imap_unordered(gen_extras, [xs[i:i + 200] for i in range(0, len(xs), 200)]) for r in rs]
-        bad += core.validate_records(ctx, 'ExtremaRec', ex, name='ExtremaRec-extras')
-        ctx.leg('extras', is_imf_zero_crossing_epoch_records=len(ex))
+        # specification growth beyond C05 (is_imf's counting criterion, zero_crossing_count, extrema-locked epochs):
+        # validated like everything else, but a mismatch there is not a verdict on C05
+        xbad = core.validate_records(ctx, 'ExtremaRec', ex, name='ExtremaRec-extras')
+        for clause in sorted(set(c for _, c in xbad)):
+            rs = [r for r, c in xbad if c == clause]
+            ctx.extra('%s disagrees with ExtremaDef on %d records; first: %s' % (clause, len(rs), rs[0]))
+        ctx.leg('extras', is_imf_zero_crossing_epoch_records=len(ex), mismatches=len(xbad))
         nf = ctx.pick(1600, 16000)
         fl = [r for rs in pool.imap_unordered(gen_float, [(ctx.seed * 1000 + i, nf // 16) for i in range(16)]) for r in rs]
     bad += core.validate_records(ctx, 'ExtremaRec', fl, name='ExtremaRec-float')
